@@ -1,0 +1,21 @@
+//go:build verif && (verif_all || verif_c09)
+// +build verif
+// +build verif_all verif_c09
+
+package gocql
+
+// Verification hooks (build tag `verif`), add-only: more than one keyspace in the schema cache of
+// the connection-less routing session of verif_export_c09c.go (name / index resolution of
+// Session.routingKeyInfo: keyspace, table and column names of any spelling).
+
+// VerifC09AddKeyspace compiles schema (the rows of the schema's columns table per table, by the
+// real compileMetadata under protocol proto) and puts the result into the session's schema cache
+// under schema.Keyspace, as a schema refresh of that keyspace would.
+func VerifC09AddKeyspace(s *Session, proto byte, schema *VerifC09Schema) {
+	if schema.Rows == nil {
+		schema.Rows = map[string][]VerifC09ColumnRow{}
+	}
+	s.schemaDescriber.mu.Lock()
+	defer s.schemaDescriber.mu.Unlock()
+	s.schemaDescriber.cache[schema.Keyspace] = verifC09Compile(proto, schema)
+}
